@@ -172,7 +172,25 @@ func hasLowerBound(e ast.Expr, r string) bool {
 	return false
 }
 
-func confines(e ast.Expr, r string) bool { return rangeTest(e, r) && hasLowerBound(e, r) }
+// the file's own one-line predicates `func isX(p rune) bool { return <range test on p> }`: a call `isX(r)` confines r
+// like the test it stands for (the commonest harmless rewrite of a character-class test)
+var lexPredicates = map[string]*ast.FuncDecl{}
+
+func confines(e ast.Expr, r string) bool {
+	if call, ok := e.(*ast.CallExpr); ok && len(call.Args) == 1 {
+		if id, ok := call.Fun.(*ast.Ident); ok {
+			if arg, ok := call.Args[0].(*ast.Ident); ok && arg.Name == r {
+				if fd, ok := lexPredicates[id.Name]; ok && len(fd.Body.List) == 1 && len(fd.Type.Params.List) == 1 && len(fd.Type.Params.List[0].Names) == 1 {
+					if ret, ok := fd.Body.List[0].(*ast.ReturnStmt); ok && len(ret.Results) == 1 {
+						p := fd.Type.Params.List[0].Names[0].Name
+						return rangeTest(ret.Results[0], p) && hasLowerBound(ret.Results[0], p)
+					}
+				}
+			}
+		}
+	}
+	return rangeTest(e, r) && hasLowerBound(e, r)
+}
 
 func labelOf(e ast.Expr, tagged bool, r string) string {
 	if tagged {
@@ -314,6 +332,11 @@ func dedupe(outs []llOut) []llOut {
 
 func genLexLoops() string {
 	f := parseFile("types/lexer.go")
+	for _, d := range f.Decls {
+		if fd, ok := d.(*ast.FuncDecl); ok && fd.Recv == nil && fd.Body != nil {
+			lexPredicates[fd.Name.Name] = fd
+		}
+	}
 	var b strings.Builder
 	b.WriteString(header("lexloops", "types/lexer.go"))
 	b.WriteString("import Pcore.Model.LexLoops\nnamespace Pcore.Generated\nopen Pcore.LexLoops\n\ndef lexLoops : List Loop := [\n")
